@@ -142,6 +142,15 @@ class C14(PropBase):
                             self.fail(rep, f"column {n} of aircraft {a:06X} is unknown but a source mark {t[pos + w:pos + w + 1]!r} is printed after it (-i {groups!r})",
                                       {"ops": ops, "row_text": t, "header": header, "column": n, "row_state": row})
                             return
+                        # ... and a known value is followed by the mark recorded for THAT parameter (its own source field)
+                        mk = {"ALT B": "alts", "ALT S": "tasrc", "VRATE": "vrs", "TRK": "trs", "HDG": "hds"}.get(n)
+                        if want and mk and row.get(mk, "-").isdigit():
+                            wm = chr(int(row[mk]))
+                            gm_ = t[pos + w:pos + w + 1] or " "
+                            if gm_ != wm:
+                                self.fail(rep, f"column {n} of aircraft {a:06X} is followed by the source mark {gm_!r}, the row state records {wm!r} for it (-i {groups!r})",
+                                          {"ops": ops, "row_text": t, "header": header, "column": n, "row_state": row})
+                                return
                         if got != exp:
                             self.fail(rep, f"column {n} of aircraft {a:06X} shows {got!r}, the row state says {exp!r} (-i {groups!r})",
                                       {"ops": ops, "row_text": t, "header": header, "column": n, "expected": exp, "row_state": row})
